@@ -70,13 +70,21 @@ def make_case(rc):
             cells['A1'] = l
         if type(r).__name__ != 'EmptyCell':
             cells['B1'] = r
-        out = I.eval_formula('=A1&B1', cells, addr='D4')
+        if rc.get('ov'):
+            # the workbook holds texts in both cells; the operands arrive as overrides (of any type)
+            out = I.eval_formula('=A1&B1', {'A1': 'p', 'B1': 'q'}, addr='D4', overrides=[I.Cell(0, 0, 0, l), I.Cell(0, 1, 0, r)])
+        else:
+            out = I.eval_formula('=A1&B1', cells, addr='D4')
         coq = 'CAmp %s %s %s %s' % (C.cval(l), C.cval(r), reprs_of([l, r]), C.cres(out))
         nt = True
     elif k == 'concat':
         vals = [d(v) for v in rc['vals']]
         cells = {'%s1' % 'ABCDE'[i]: v for i, v in enumerate(vals) if type(v).__name__ != 'EmptyCell'}
-        out = I.eval_formula('=CONCATENATE(%s)' % ','.join('%s1' % 'ABCDE'[i] for i in range(len(vals))), cells, addr='D4')
+        if rc.get('ov'):
+            out = I.eval_formula('=CONCATENATE(%s)' % ','.join('%s1' % 'ABCDE'[i] for i in range(len(vals))), {k: 't' for k in cells}, addr='D4',
+                                 overrides=[I.Cell(0, i, 0, v) for i, v in enumerate(vals)])
+        else:
+            out = I.eval_formula('=CONCATENATE(%s)' % ','.join('%s1' % 'ABCDE'[i] for i in range(len(vals))), cells, addr='D4')
         coq = 'CConcat %s %s %s' % (C.clist([C.cval(v) for v in vals]), reprs_of(vals), C.cres(out))
         nt = len(vals) >= 2
     elif k == 'value':
@@ -131,10 +139,14 @@ def gen_recipes(rng, n):
         elif r < 0.8:
             pool = ['abc', '', 'x y', 7, -3, 0, 0, 10, 2.5, 2.0, 0.1, True, False, {'E': 1}, 10 ** 20, 'Q']
             jp = [p if isinstance(p, dict) else C.jenc(p) for p in pool]
-            out.append({'kind': 'amp', 'l': rng.choice(jp), 'r': rng.choice(jp)})
+            rec = {'kind': 'amp', 'l': rng.choice(jp), 'r': rng.choice(jp)}
+            rec['ov'] = rng.random() < 0.4 and not any(isinstance(x, dict) and 'E' in x for x in (rec['l'], rec['r']))
+            out.append(rec)
         elif r < 0.88:
             pool = ['abc', 'x', 7, -3, 0, 0, 10, '', 2.5, 4.0, True, {'E': 1}, dt.datetime(2020, 1, 2)]
-            out.append({'kind': 'concat', 'vals': [p if isinstance(p, dict) else C.jenc(p) for p in [rng.choice(pool) for _ in range(rng.randint(1, 4))]]})
+            rec = {'kind': 'concat', 'vals': [p if isinstance(p, dict) else C.jenc(p) for p in [rng.choice(pool) for _ in range(rng.randint(1, 4))]]}
+            rec['ov'] = rng.random() < 0.4 and not any(isinstance(x, dict) and 'E' in x for x in rec['vals'])
+            out.append(rec)
         else:
             t = rng.choice(['12', ' 12 ', '-7', '+3', '3.5', '3,5', '0.1', '1e3', 'abc', '', '12%', '1 234,5', '007', '.5', '5.', '1_0', 'nan', '12abc', ' -2.25 ', '1e-2'])
             if via == 'formula' and (t == '' or t != t.strip()):
